@@ -109,6 +109,8 @@ def worker(spec, out):
             for _ in range(r.randint(0, 2)):
                 kk = r.choice([(":a", K("a")), (":b", K("b")), (":ns/c", K("c", ns="ns")), ('"s"', "s"), ("'y", S("y")), ("0", 0)])
                 sub = self.pat(d - 1)
+                if any(p.startswith(sub[0] + " ") for p in parts):
+                    continue  # the pattern is a key of the map literal: an equal one (two empty patterns) would be a duplicate key
                 parts.append(sub[0] + " " + kk[0])
                 binders.append(("sub", sub, kk[1]))
             if r.random() < 0.6:
